@@ -2,25 +2,26 @@
 (* Trace specification for FrpcProxies: real health monitors and the real client proxy manager. *)
 EXTENDS FrpcProxies, Json
 Trace == ndJsonDeserialize("trace.ndjson")
-VARIABLES l, bad, mon, w, pend, policy, cfgT
-tvars == <<hvars, l, bad, mon, w, pend, policy, cfgT>>
+CONSTANT KnownTags     \* tags of recorded (unrepaired) findings: reported, not raised
+VARIABLES l, bad, mon, w, pend, policy, cfgT, kf
+tvars == <<hvars, l, bad, mon, w, pend, policy, cfgT, kf>>
 E == Trace[l]
 Ev(e) == l <= Len(Trace) /\ Trace[l].ev = e /\ l' = l + 1
 Flag(cond, tag) == bad' = IF cond THEN bad ELSE bad \cup {<<tag, l>>}
 Has(f, k) == k \in DOMAIN f
 
-TInit == HInit /\ l = 1 /\ bad = {} /\ mon = <<>> /\ w = <<>> /\ pend = <<>> /\ policy = <<>> /\ cfgT = [check |-> 40, wait |-> 400, starterr |-> 300]
-TReset == /\ Ev("reset") /\ UNCHANGED <<hvars, bad>> /\ mon' = <<>> /\ w' = <<>> /\ pend' = <<>> /\ policy' = <<>>
+TInit == HInit /\ l = 1 /\ bad = {} /\ kf = {} /\ mon = <<>> /\ w = <<>> /\ pend = <<>> /\ policy = <<>> /\ cfgT = [check |-> 40, wait |-> 400, starterr |-> 300]
+TReset == /\ Ev("reset") /\ UNCHANGED <<kf, hvars, bad>> /\ mon' = <<>> /\ w' = <<>> /\ pend' = <<>> /\ policy' = <<>>
           /\ cfgT' = IF "wait_ms" \in DOMAIN E THEN [check |-> E.check_ms, wait |-> E.wait_ms, starterr |-> E.starterr_ms] ELSE cfgT
 
 (* ---- health monitors ---- *)
-TMonNew == /\ Ev("mon.new") /\ UNCHANGED <<hvars, bad, w, pend, policy, cfgT>>
+TMonNew == /\ Ev("mon.new") /\ UNCHANGED <<kf, hvars, bad, w, pend, policy, cfgT>>
            /\ mon' = (E.id :> [mf |-> E.max_failed, ok |-> FALSE, consec |-> 0, expect |-> "none", ans |-> -1]) @@ mon
 \* an http backend answered a probe with this status (logged by the backend before the answer is written)
-TMonAnswer == /\ Ev("mon.answer") /\ Has(mon, E.id) /\ UNCHANGED <<hvars, bad, w, pend, policy, cfgT>>
+TMonAnswer == /\ Ev("mon.answer") /\ Has(mon, E.id) /\ UNCHANGED <<kf, hvars, bad, w, pend, policy, cfgT>>
               /\ mon' = [mon EXCEPT ![E.id].ans = E.status]
 TProbe ==
-  /\ Ev("mon.probe") /\ Has(mon, E.id) /\ UNCHANGED <<hvars, w, pend, policy, cfgT>>
+  /\ Ev("mon.probe") /\ Has(mon, E.id) /\ UNCHANGED <<kf, hvars, w, pend, policy, cfgT>>
   /\ LET m == mon[E.id] IN
      /\ bad' = bad
           \cup (IF m.expect = "none" THEN {} ELSE {<<"health status change was not reported (callback missing)", l>>})
@@ -31,7 +32,7 @@ TProbe ==
           ELSE IF m.ok /\ m.consec + 1 >= m.mf THEN [m EXCEPT !.consec = @ + 1, !.ok = FALSE, !.expect = "failed", !.ans = -1]
           ELSE [m EXCEPT !.consec = @ + 1, !.expect = "none", !.ans = -1]]
 TMonStatus ==
-  /\ Ev("mon.status") /\ Has(mon, E.id) /\ UNCHANGED <<hvars, w, pend, policy, cfgT>>
+  /\ Ev("mon.status") /\ Has(mon, E.id) /\ UNCHANGED <<kf, hvars, w, pend, policy, cfgT>>
   /\ Flag(mon[E.id].expect = (IF E.ok THEN "ok" ELSE "failed"),
           "proxy reported healthy / withdrawn at another moment than after the first success / exactly maxFailed consecutive failures")
   /\ mon' = [mon EXCEPT ![E.id].expect = "none"]
@@ -43,16 +44,16 @@ FirstOf(cfgs, n) == LET i == CHOOSE i \in 1..Len(cfgs) : cfgs[i][1] = n /\ \A j 
 NamesOf(cfgs) == {cfgs[i][1] : i \in 1..Len(cfgs)}
 NewW(v) == [ver |-> v, phase |-> "new", sends |-> 0, lastErr |-> 0, lastSend |-> 0]
 TUpdate ==
-  /\ Ev("drv.pm.update") /\ UNCHANGED <<hvars, bad, mon, cfgT>>
+  /\ Ev("drv.pm.update") /\ UNCHANGED <<kf, hvars, bad, mon, cfgT>>
   /\ IF E.same THEN UNCHANGED <<w, pend, policy>>
      ELSE LET tgt == NamesOf(E.cfgs)
               stopped == {n \in DOMAIN w : n \notin tgt \/ FirstOf(E.cfgs, n) # w[n].ver}
               kept == DOMAIN w \ stopped
           IN /\ w' = [n \in kept \cup tgt |-> IF n \in kept THEN w[n] ELSE NewW(FirstOf(E.cfgs, n))]
              /\ pend' = [n \in (DOMAIN pend) \cup stopped |-> (IF n \in DOMAIN pend THEN pend[n] ELSE 0) + (IF n \in stopped THEN 1 ELSE 0)]
-             /\ policy' = policy
+             /\ policy' = [n \in (DOMAIN policy) \ stopped |-> policy[n]]
 TMsg ==
-  /\ Ev("pm.msg") /\ UNCHANGED <<hvars, mon, policy, cfgT>>
+  /\ Ev("pm.msg") /\ UNCHANGED <<kf, hvars, mon, policy, cfgT>>
   /\ LET t == E.t_us \div 1000 IN
      IF E.kind = "close"
      THEN /\ UNCHANGED w
@@ -64,15 +65,23 @@ TMsg ==
              THEN UNCHANGED w /\ bad' = bad \cup {<<"registration sent for a proxy that is not (or no longer) configured with this definition", l>>}
              ELSE LET x == w[E.name] IN
                   /\ w' = [w EXCEPT ![E.name] = [x EXCEPT !.phase = "wait start", !.sends = @ + 1, !.lastSend = t]]
-                  /\ bad' = bad
-                     \cup (IF x.phase \in {"new", "check failed", "start error", "wait start"} THEN {} ELSE {<<"unchanged running proxy was registered again", l>>})
+                  /\ bad' = IF Has(policy, E.name) THEN bad ELSE bad
+                     \cup (IF SendDue(x.phase) THEN {} ELSE {<<"unchanged running proxy was registered again", l>>})
                      \cup (IF x.phase = "start error" /\ t - x.lastErr < cfgT.starterr - 40 THEN {<<"start error retried before the back-off interval", l>>} ELSE {})
                      \cup (IF x.phase = "wait start" /\ t - x.lastSend < cfgT.wait - 40 THEN {<<"registration repeated before the response timeout", l>>} ELSE {})
+\* FrpcManager.Recv. `for_ver`: the definition of the request this answer belongs to. An answer to a request of
+\* an incarnation that has ended since does not count for the live wrapper (ideal rule); the name is remembered
+\* as exposed, and what the code made of it is judged where its status is observed.
+StaleAnswer == Has(E, "for_ver") /\ Has(w, E.name) /\ w[E.name].ver # E.for_ver
 TReply ==
-  /\ Ev("drv.pm.reply") /\ UNCHANGED <<hvars, bad, mon, pend, policy, cfgT>>
-  /\ IF Has(w, E.name) /\ w[E.name].phase = "wait start"
-     THEN w' = [w EXCEPT ![E.name].phase = IF E.ok THEN "running" ELSE "start error", ![E.name].lastErr = E.t_us \div 1000]
-     ELSE UNCHANGED w
+  /\ Ev("drv.pm.reply") /\ UNCHANGED <<kf, hvars, bad, mon, pend, cfgT>>
+  /\ IF StaleAnswer
+     THEN /\ UNCHANGED w
+          /\ policy' = IF w[E.name].phase = "wait start" THEN (E.name :> E.ok) @@ policy ELSE policy
+     ELSE /\ UNCHANGED policy
+          /\ IF Has(w, E.name) /\ w[E.name].phase = "wait start"
+             THEN w' = [w EXCEPT ![E.name].phase = AfterReply(E.ok), ![E.name].lastErr = E.t_us \div 1000]
+             ELSE UNCHANGED w
 
 Near(a, b) == a = b \/ Legal(a, b) \/ Legal(b, a)
 PhasesOK(strict) ==
@@ -80,27 +89,38 @@ PhasesOK(strict) ==
   /\ \A i \in 1..Len(E.phases) :
        LET n == E.phases[i][1]  ph == E.phases[i][2]  x == w[n] IN
        /\ E.phases[i][3] = x.ver
-       /\ Near(x.phase, ph)
-       /\ strict => ( /\ (x.phase = "running" => ph = "running")
-                      /\ (x.phase = "start error" => (ph \in {"start error", "wait start"}))
-                      /\ (x.phase # "running" => x.sends >= 2) )
+       /\ Has(policy, n) \/
+          ( /\ Near(x.phase, ph)
+            /\ strict => ( /\ (x.phase = "running" => ph = "running")
+                           /\ (x.phase = "start error" => (ph \in {"start error", "wait start"}))
+                           /\ (x.phase # "running" => x.sends >= 2) ) )
+\* exposed names: the wrapper's status must be what the answers to ITS OWN requests imply
+StaleTag == "an answer to the registration of a wrapper that has ended since was taken as the answer to the live wrapper's registration [answer outstanding across a reload]"
+StaleTaken(strict) == {n \in DOMAIN policy : \E i \in 1..Len(E.phases) : E.phases[i][1] = n /\ Has(w, n) /\
+                         LET ph == E.phases[i][2]  x == w[n] IN
+                         \/ (x.phase = "running") # (ph = "running")
+                         \/ strict /\ x.phase = "start error" /\ ph \notin {"start error", "wait start"}}
+JudgeStale(strict, others) ==
+  LET S == IF StaleTaken(strict) = {} THEN {} ELSE {<<StaleTag, l>>} IN
+  /\ bad' = bad \cup others \cup {t \in S : t[1] \notin KnownTags}
+  /\ kf' = kf \cup {t[1] : t \in {x \in S : x[1] \in KnownTags}}
 TStatus == /\ Ev("drv.pm.status") /\ UNCHANGED <<hvars, mon, w, pend, policy, cfgT>>
-           /\ Flag(PhasesOK(FALSE), "reported proxies / phases differ from the configured set or make an illegal transition")
+           /\ JudgeStale(FALSE, IF PhasesOK(FALSE) THEN {} ELSE {<<"reported proxies / phases differ from the configured set or make an illegal transition", l>>})
 TSettled == /\ Ev("drv.pm.settled") /\ UNCHANGED <<hvars, mon, w, pend, policy, cfgT>>
-            /\ bad' = bad
-               \cup (IF PhasesOK(TRUE) THEN {} ELSE {<<"after settling: a refused or unanswered registration was not retried, or a proxy is not in the phase its history implies", l>>})
-               \cup (IF \A n \in DOMAIN pend : pend[n] = 0 THEN {} ELSE {<<"a removed or changed proxy was not closed at the server", l>>})
+            /\ JudgeStale(TRUE,
+                  (IF PhasesOK(TRUE) THEN {} ELSE {<<"after settling: a refused or unanswered registration was not retried, or a proxy is not in the phase its history implies", l>>})
+                  \cup (IF \A n \in DOMAIN pend : pend[n] = 0 THEN {} ELSE {<<"a removed or changed proxy was not closed at the server", l>>}))
 
-TCloseAll == /\ Ev("drv.pm.closeall") /\ UNCHANGED <<hvars, bad, mon, policy, cfgT>>
+TCloseAll == /\ Ev("drv.pm.closeall") /\ UNCHANGED <<kf, hvars, bad, mon, policy, cfgT>>
              /\ w' = <<>>
              /\ pend' = [n \in (DOMAIN pend) \cup (DOMAIN w) |-> (IF n \in DOMAIN pend THEN pend[n] ELSE 0) + (IF n \in DOMAIN w THEN 1 ELSE 0)]
 (* ---- visitor manager: the configured visitors whose bind port is not held by someone else are listening ---- *)
-TVUpdate == /\ Ev("drv.vm.update") /\ UNCHANGED <<hvars, bad, mon, pend, policy, cfgT>>
+TVUpdate == /\ Ev("drv.vm.update") /\ UNCHANGED <<kf, hvars, bad, mon, pend, policy, cfgT>>
             \* w is reused as the visitor table: name -> bind port (abstract index)
             /\ w' = [n \in {E.cfgs[i][1] : i \in 1..Len(E.cfgs)} |-> E.cfgs[CHOOSE i \in 1..Len(E.cfgs) : E.cfgs[i][1] = n][2]]
-TVHeld == Ev("drv.vm.held") /\ UNCHANGED <<hvars, bad, mon, w, pend, policy, cfgT>>
+TVHeld == Ev("drv.vm.held") /\ UNCHANGED <<kf, hvars, bad, mon, w, pend, policy, cfgT>>
 TVListening ==
-  /\ Ev("drv.vm.listening") /\ UNCHANGED <<hvars, mon, w, pend, policy, cfgT>>
+  /\ Ev("drv.vm.listening") /\ UNCHANGED <<kf, hvars, mon, w, pend, policy, cfgT>>
   /\ LET heldS == {E.held[i] : i \in 1..Len(E.held)}
          want == {w[n] : n \in DOMAIN w} \ heldS
          got == {E.ports[i] : i \in 1..Len(E.ports)}
@@ -109,8 +129,8 @@ TVListening ==
 TNext == TMonAnswer \/ TVUpdate \/ TVHeld \/ TVListening \/ TCloseAll \/ TReset \/ TMonNew \/ TProbe \/ TMonStatus \/ TUpdate \/ TMsg \/ TReply \/ TStatus \/ TSettled
 TSpec == TInit /\ [][TNext]_tvars
 NoMismatch == bad = {}
-HWM == TLCSet(1, IF TLCGet(1) < l THEN l ELSE TLCGet(1))
+HWM == TLCSet(1, IF TLCGet(1) < l THEN l ELSE TLCGet(1)) /\ TLCSet(2, TLCGet(2) \cup kf)
 TConstraint == HWM
-TAccepted == /\ PrintT(<<"HWM", TLCGet(1)>>) /\ TLCGet(1) = Len(Trace) + 1
-ASSUME TLCSet(1, 0)
+TAccepted == /\ PrintT(<<"HWM", TLCGet(1)>>) /\ PrintT(<<"KNOWN", TLCGet(2)>>) /\ TLCGet(1) = Len(Trace) + 1
+ASSUME TLCSet(1, 0) /\ TLCSet(2, {})
 =============================================================================
